@@ -7,19 +7,33 @@ from contracts.specs import WF, HT
 IGT = Map(Comp, Set(Comp))
 
 GROUPS = [
-    dict(name="handlers", sidecars=["specs"], units=[(SF, "_register_context_handler")], lemmas=[dict(
+    dict(name="handlers", sidecars=["specs"], units=[(SF, "_register_context_handler"), (SF, "_get_ctx_dependencies")], lemmas=[dict(
         # C05-WF (contracts only): the facts _register_context_handler ensures about one handler table (h0 -> h1, ignore table ig0 -> ig1)
         # preserve the representation invariant "all but the newest handler of a context ignore it"
         name="C05-WF",
-        decls=collections.OrderedDict(h0=HT, h1=HT, ig0=IGT, ig1=IGT, name=STR, component=Comp, D=Set(Comp)),
+        # the universally quantified goal WF(h1, ig1) is stated for arbitrary constants n0, c0, i0 < j0 (universal generalisation) and
+        # split by case: another spec name / a context the component does not depend on / a context it depends on
+        decls=collections.OrderedDict(h0=HT, h1=HT, ig0=IGT, ig1=IGT, name=STR, component=Comp, D=Set(Comp), n0=STR, c0=Comp, i0=INT, j0=INT),
         hyps=[WF("h0", "ig0"),
               "forall(x, Comp, forall(y, Comp, implies(x in ig0 and y in ig0[x], x in ig1 and y in ig1[x])))",
               "forall(n, Str, implies(n != name, (n in h1) == (n in h0) and implies(n in h0, h1[n] == h0[n])))",
               "forall(x, Comp, implies(x not in D, (name in h1 and x in h1[name]) == (name in h0 and x in h0[name]) and "
               "   implies(name in h1 and x in h1[name], h1[name][x] == h0[name][x])))",
               "forall(x, D, name in h1 and x in h1[name] and len(h1[name][x]) == len(row0(h0, name, x)) + 1 and h1[name][x][len(row0(h0, name, x))] == component and "
-              "   forall(k, range(0, len(row0(h0, name, x))), h1[name][x][k] == row0(h0, name, x)[k] and row0(h0, name, x)[k] in ig1 and x in ig1[row0(h0, name, x)[k]]))"],
-        goals=[WF("h1", "ig1")])]),
+              "   forall(k, range(0, len(row0(h0, name, x))), h1[name][x][k] == row0(h0, name, x)[k] and row0(h0, name, x)[k] in ig1 and x in ig1[row0(h0, name, x)[k]]))",
+              "n0 in h1 and c0 in h1[n0] and 0 <= i0 and i0 < j0 and j0 < len(h1[n0][c0])",
+              # ground instances of the quantified facts above at n0, c0, i0, j0 (consequences of them; they make the proof independent of
+              # the solver's quantifier-instantiation heuristics, which were seed-sensitive here)
+              "implies(n0 in h0 and c0 in h0[n0] and i0 < len(h0[n0][c0]) and j0 < len(h0[n0][c0]), h0[n0][c0][i0] in ig0 and c0 in ig0[h0[n0][c0][i0]])",
+              "implies(n0 in h0 and c0 in h0[n0] and h0[n0][c0][i0] in ig0 and c0 in ig0[h0[n0][c0][i0]], h0[n0][c0][i0] in ig1 and c0 in ig1[h0[n0][c0][i0]])",
+              "implies(n0 != name, (n0 in h1) == (n0 in h0) and implies(n0 in h0, h1[n0] == h0[n0]))",
+              "implies(c0 not in D, (name in h1 and c0 in h1[name]) == (name in h0 and c0 in h0[name]) and "
+              "   implies(name in h1 and c0 in h1[name], h1[name][c0] == h0[name][c0]))",
+              "implies(c0 in D, name in h1 and c0 in h1[name] and len(h1[name][c0]) == len(row0(h0, name, c0)) + 1 and "
+              "   implies(i0 < len(row0(h0, name, c0)), h1[name][c0][i0] == row0(h0, name, c0)[i0] and row0(h0, name, c0)[i0] in ig1 and c0 in ig1[row0(h0, name, c0)[i0]]))"],
+        goals=["implies(n0 != name, h1[n0][c0][i0] in ig1 and c0 in ig1[h1[n0][c0][i0]])",
+               "implies(n0 == name and c0 not in D, h1[n0][c0][i0] in ig1 and c0 in ig1[h1[n0][c0][i0]])",
+               "implies(n0 == name and c0 in D, h1[n0][c0][i0] in ig1 and c0 in ig1[h1[n0][c0][i0]])"])]),
     dict(name="resolution", sidecars=["dr", "specs"], units=[
         (SF, "RegistryPoint.__call__"), (DR, "ComponentType.add_dependency"),
         (DR, "Broker.__contains__"), (DR, "Broker.__getitem__"),
